@@ -505,6 +505,102 @@ pub fn run(ctx: &Ctx) -> Outcome {
         co
     });
 
+    // very long miter spikes: two segments that almost reverse (by 1e-3 .. 0.1 rad short of it) under a miter limit
+    // in the thousands; the spike runs across the whole surface and is as wide as the stroke at its base
+    run_cases(ctx, &mut out, SubSpec { name: "long_miter_spikes", cases: ctx.n(400, 8_000), exhaustive: false, max_secs: 60. }, |i, want, st| {
+        let mut rng = ctx.rng("long_miter_spikes", i);
+        let w = rng.int(30, 60) as i32;
+        let h = rng.int(16, 30) as i32;
+        let phi = *rng.pick(&[1.05e-3f64, 1.2e-3, 1.35e-3, 2e-3, 5e-3, 0.02, 0.1]);
+        let limit = *rng.pick(&[3000.0f32, 10000.0]);
+        let width = rng.range(3., 6.) as f32;
+        // A -> B going left, then back to the right at an angle phi: the spike points to the left of B... so B is
+        // at the right end and the spike continues to the right; mirrored now and then
+        let by = h as f64 / 2. + rng.range(-2., 2.);
+        let bx = rng.range(6., 12.);
+        let len = rng.range(12., 25.);
+        let dir = rng.range(-0.3, 0.3);
+        let a = (bx + len * (dir).cos(), by + len * (dir).sin());
+        let c = (bx + len * (dir + phi).cos(), by + len * (dir + phi).sin());
+        let mirror = rng.chance(0.5);
+        let mx = |x: f64| if mirror { w as f64 - x } else { x };
+        let mut pb = PathBuilder::new();
+        pb.move_to(mx(a.0) as f32, a.1 as f32);
+        pb.line_to(mx(bx) as f32, by as f32);
+        pb.line_to(mx(c.0) as f32, c.1 as f32);
+        let style = StrokeStyle { width, cap: LineCap::Butt, join: LineJoin::Miter, miter_limit: limit, dash_array: vec![], dash_offset: 0. };
+        let c4 = StrokeCase { w, h, path: pb.finish(), style, t: Transform::identity(), aa: true };
+        let mut co = CaseOut::default();
+        co.hash = crate::prng::hash_str(&format!("{:?}{:?}", c4.path, c4.style));
+        let mut dt = DrawTarget::new(w, h);
+        dt.stroke(&c4.path, &Source::Solid(WHITE), &c4.style, &opts(BlendMode::SrcOver, 1., true));
+        let subs = stroke_polyline(&c4.path, &c4.t);
+        let reg = stroke_region(&subs, width as f64, cap_of(LineCap::Butt), join_of(LineJoin::Miter), limit as f64, &T64::from(&c4.t));
+        let res = check_against_region(dt.get_data(), w, h, &reg, 1.0);
+        st.add("spikes", 1);
+        co.nontrivial = res.inside > 0 && res.outside > 0;
+        if let Some(v) = res.violation {
+            co.viol("C04", format!("segments {:.4} rad short of reversing, miter limit {}: {}", phi, limit, v));
+        }
+        if want || !co.violations.is_empty() {
+            co.desc = Some(case_desc(&c4));
+        }
+        co
+    });
+
+    // polylines made of steps exactly one f32 spacing long, out where user space is that coarse (2^23: one unit,
+    // 2^24: two units), brought onto the surface by a translation: every step is a segment in its own right
+    run_cases(ctx, &mut out, SubSpec { name: "steps_of_one_f32_spacing", cases: ctx.n(300, 6_000), exhaustive: false, max_secs: 60. }, |i, want, st| {
+        let mut rng = ctx.rng("steps_of_one_f32_spacing", i);
+        let e = *rng.pick(&[23i32, 24]);
+        let step = if e == 23 { 1.0f32 } else { 2.0 };
+        let d = (2.0f32).powi(e) * if rng.chance(0.5) { -1. } else { 1. };
+        // (negative coordinates of that size have the same spacing)
+        let w = rng.int(24, 48) as i32;
+        let h = rng.int(16, 32) as i32;
+        let n = rng.int(8, 16) as usize;
+        let (x0, y0) = ((4.0f32 / step).round() * step, ((h as f32 / 2.) / step).round() * step);
+        // straight along x or along y (the region is that of the one long segment the steps add up to: the
+        // primitives of the single steps are too small for any pixel to lie well inside one of them)
+        let along_y = rng.chance(0.3);
+        let (x0, y0) = if along_y { (((w as f32 / 2.) / step).round() * step, (3.0f32 / step).round() * step) } else { (x0, y0) };
+        let mut pb = PathBuilder::new();
+        let (mut x, mut y) = (x0, y0);
+        pb.move_to(d + x, d + y);
+        let n = if along_y { n.min(((h - 8) as f32 / step) as usize) } else { n };
+        for _ in 0..n {
+            if along_y {
+                y += step;
+            } else {
+                x += step;
+            }
+            pb.line_to(d + x, d + y);
+        }
+        let style = StrokeStyle { width: rng.range(8., 14.) as f32, cap: *rng.pick(&[LineCap::Butt, LineCap::Square]), join: *rng.pick(&[LineJoin::Bevel, LineJoin::Round]), miter_limit: 2., dash_array: vec![], dash_offset: 0. };
+        let c = StrokeCase { w, h, path: pb.finish(), style, t: Transform::translation(-d, -d), aa: true };
+        let mut co = CaseOut::default();
+        co.hash = crate::prng::hash_str(&format!("{:?}{:?}{}", c.path, c.style, e));
+        let mut dt = DrawTarget::new(w, h);
+        dt.set_transform(&c.t);
+        dt.stroke(&c.path, &Source::Solid(WHITE), &c.style, &opts(BlendMode::SrcOver, 1., true));
+        let mut one = PathBuilder::new();
+        one.move_to(d + x0, d + y0);
+        one.line_to(d + x, d + y);
+        let subs = stroke_polyline(&one.finish(), &c.t);
+        let reg = stroke_region(&subs, c.style.width as f64, cap_of(c.style.cap), join_of(c.style.join), c.style.miter_limit as f64, &T64::from(&c.t));
+        // the outline the stroker computes out there is itself rounded to the spacing
+        let res = check_against_region(dt.get_data(), w, h, &reg, 1.0 + step as f64);
+        st.add("unit_step_polylines", 1);
+        co.nontrivial = res.inside > 0 && res.outside > 0;
+        if let Some(v) = res.violation {
+            co.viol("C04", format!("{} steps of {} at 2^{}: {}", n, step, e, v));
+        }
+        if want || !co.violations.is_empty() {
+            co.desc = Some(case_desc(&c));
+        }
+        co
+    });
+
     run_cases(ctx, &mut out, SubSpec { name: "strokes", cases: ctx.n(40_000, 1_000_000), exhaustive: false, max_secs: secs }, |i, want, st| {
         let mut rng = ctx.rng("strokes", i);
         let w = rng.int(8, 48) as i32;
@@ -549,7 +645,22 @@ pub fn run(ctx: &Ctx) -> Outcome {
                 path = path.transform(&Transform::translation(dx, 0.));
             }
         }
-        let t = if style.cap == LineCap::Square || style.join == LineJoin::Miter { t } else { t };
+        // now and then the path lives far from the origin of user space and a translation brings it back: its
+        // vertices are then only as fine as f32 is out there (the case is judged with the vertices as stored)
+        let (path, t) = if rng.chance(0.06) {
+            // (up to 2^18: beyond that the stroker's own f32 arithmetic in user space is coarser than the margin)
+            let e = *rng.pick(&[10i32, 12, 14, 16, 17, 18]);
+            let d = (2.0f32).powi(e) * if rng.chance(0.5) { -1. } else { 1. };
+            let lin_is_identity = t.m11 == 1. && t.m12 == 0. && t.m21 == 0. && t.m22 == 1.;
+            if e <= 16 || lin_is_identity {
+                st.add("paths_far_from_the_origin", 1);
+                (path.transform(&Transform::translation(d, d)), Transform::translation(-d, -d).then(&t))
+            } else {
+                (path, t)
+            }
+        } else {
+            (path, t)
+        };
         let c = StrokeCase { w, h, path, style, t, aa: rng.chance(0.8) };
         let mut co = CaseOut::default();
         co.hash = crate::prng::hash_str(&format!("{:?}{:?}{:?}{}", c.path, c.style, c.t, c.aa));
